@@ -61,26 +61,38 @@ fn report<'a>(args: FunctionArgs<'_, 'a>) -> Option<LhsValue<'a>> {
     unsafe {
         SEEN_LEN = args.len();
         let mut k = 0;
-        while k < 4 {
-            match args.next() {
+        while k < 3 {
+            let a = args.next();
+            let done = a.is_none();
+            match &a {
                 Some(Ok(LhsValue::Int(i))) => {
-                    SEEN_VAL[k] = i;
+                    SEEN_VAL[k] = *i;
                     SEEN_KIND[k] = 0;
                 }
                 Some(Err(Type::Int)) => {
                     SEEN_KIND[k] = 1;
                 }
-                Some(other) => {
-                    std::mem::forget(other);
+                Some(_) => {
                     SEEN_KIND[k] = 2;
                 }
-                None => {
-                    break;
-                }
+                None => {}
+            }
+            // the drop of an argument is not part of the contract
+            std::mem::forget(a);
+            if done {
+                break;
             }
             k += 1;
         }
         SEEN_N = k;
+        if k == 3 {
+            // nothing beyond the declared parameters
+            let extra = args.next();
+            if extra.is_some() {
+                SEEN_N = 4;
+            }
+            std::mem::forget(extra);
+        }
     }
     Some(LhsValue::Int(1))
 }
@@ -125,7 +137,9 @@ fn defaults<const P: usize, const OPT: bool>() {
         std::array::from_fn(|i| if absent[i] { Err(Type::Int) } else { Ok(LhsValue::Int(xs[i])) });
     let mut supplied = supplied.into_iter();
     let got = f(&mut supplied);
-    assert!(matches!(got, Some(LhsValue::Int(1))), "the implementation's result is the call's result");
+    assert!(matches!(&got, Some(LhsValue::Int(1))), "the implementation's result is the call's result");
+    std::mem::forget(got);
+    std::mem::forget(supplied);
     let total = if OPT { 3 } else { 1 };
     unsafe {
         assert!(SEEN_LEN == total, "the implementation sees mandatory + optional parameters");
@@ -153,25 +167,25 @@ fn defaults<const P: usize, const OPT: bool>() {
 }
 
 #[kani::proof]
-#[kani::unwind(6)]
+#[kani::unwind(4)]
 fn simple_function_compile__defaults_p1() {
     defaults::<1, true>()
 }
 
 #[kani::proof]
-#[kani::unwind(6)]
+#[kani::unwind(4)]
 fn simple_function_compile__defaults_p2() {
     defaults::<2, true>()
 }
 
 #[kani::proof]
-#[kani::unwind(6)]
+#[kani::unwind(4)]
 fn simple_function_compile__defaults_p3() {
     defaults::<3, true>()
 }
 
 #[kani::proof]
-#[kani::unwind(6)]
+#[kani::unwind(4)]
 fn simple_function_compile__no_optionals_p1() {
     defaults::<1, false>()
 }
@@ -206,8 +220,8 @@ fn check_param_kind<const POS: usize>() {
             assert!(false, "a well-typed argument is never a type error");
         }
     }
-    kani::cover!(kind_ok && is_literal);
-    kani::cover!(kind_ok && !is_literal);
+    kani::cover!(is_literal, "a literal argument");
+    kani::cover!(!is_literal, "a field argument");
     std::mem::forget(def);
     std::mem::forget(lit);
 }
